@@ -202,6 +202,14 @@ func (r *run) dispatch(e Ev) {
 		}
 	case "wire":
 		r.wireEvent(e)
+	case "holdresp":
+		// the answer to the next push-pull of this (realtime) client is slow
+		if a := r.actor(e.A); a.realtime && !a.gone {
+			if r.holdNext == nil {
+				r.holdNext = map[string]int{}
+			}
+			r.holdNext[a.name] = 1 + mod(e.N, 3)
+		}
 	}
 }
 
